@@ -70,8 +70,15 @@ class Awaiting:
     def __exit__(self, exc_type, exc_value, exc_tb):
         assert Awaiting.awaiting_stack.pop() is self.deferred
         self.deferred.is_awaiting = False
-        for key in Awaiting.found_cycles_stack.pop():
-            Awaiting.known_cycles.pop(key, None)
+        found = Awaiting.found_cycles_stack.pop()
+        if exc_type is DeferredCycle and Awaiting.found_cycles_stack:
+            # This value has turned out to be part of a cycle itself (and is
+            # about to be remembered as such), so what it has found stays true
+            # for whoever is waiting for it
+            Awaiting.found_cycles_stack[-1].extend(found)
+        else:
+            for key in found:
+                Awaiting.known_cycles.pop(key, None)
 
 
 def remember_cycle(deferred):
@@ -114,13 +121,18 @@ class BaseDeferred(metaclass=BaseDeferredMetaclass):
     def wait(self):
         if try_compute.depth > 0 and id(self) in try_compute.not_ready_yet:
             raise NotReadyError()
-        with Awaiting(self):
-            try:
-                return self._wait()
-            except NotReadyError:
-                if try_compute.depth > 0:
-                    try_compute.not_ready_yet[id(self)] = self
-                raise
+        try:
+            with Awaiting(self):
+                try:
+                    return self._wait()
+                except NotReadyError:
+                    if try_compute.depth > 0:
+                        try_compute.not_ready_yet[id(self)] = self
+                    raise
+        except DeferredCycle:
+            # (whoever asked for this value need not ask again)
+            remember_cycle(self)
+            raise
 
     def get_current_best_estimate(self):
         raise NotImplementedError(type(self).__name__ + ".get_current_best_estimate()")  # pragma: no cover
@@ -251,6 +263,9 @@ class Deferred(BaseDeferred):
 Deferred.next_instance_id = 1
 
 
+MAX_COEFFICIENT_BITS = 4096
+
+
 class LinearPolynomial(BaseDeferred):
     def __init__(self, typ, coeffs=None, constant_term=0):
         if typ is not int:  # pragma: no cover
@@ -372,6 +387,11 @@ class LinearPolynomial(BaseDeferred):
             # the same variable and cancels out (e.g. the link base: both the
             # promise and the value it is settled to may occur).
             nonlocal new_constant_term
+            if value.bit_length() > MAX_COEFFICIENT_BITS:
+                # No address is multiplied by anything like that: this is a ring
+                # of definitions being unrolled over and over (the coefficients
+                # double in length with every level of such a ring)
+                raise DeferredCycle()
             if any(key is prev for prev in expanding):
                 new_coeffs.append((key, value))
                 return
